@@ -153,7 +153,7 @@ class Client:
         try: self.s.close()
         except OSError: pass
 
-def start_pgcat(binary, backend_port, listen_port, pool_size=1, extra_pool='', extra_general=''):
+def start_pgcat(binary, backend_port, listen_port, pool_size=1, extra_pool='', extra_general='', shard_ids=('0',)):
     cfg = '''
 [general]
 host = "127.0.0.1"
@@ -171,10 +171,8 @@ username = "u"
 password = "p"
 pool_size = %d
 auth_type = "trust"
-[pools.db.shards.0]
-servers = [["127.0.0.1", %d, "primary"]]
-database = "postgres"
-''' % (listen_port, extra_general, extra_pool, pool_size, backend_port)
+%s
+''' % (listen_port, extra_general, extra_pool, pool_size, ''.join('[pools.db.shards.%s]\nservers = [["127.0.0.1", %d, "primary"]]\ndatabase = "postgres"\n' % (sid, backend_port) for sid in shard_ids))
     d = tempfile.mkdtemp(prefix='dvconfirm')
     p = os.path.join(d, 'pgcat.toml')
     open(p, 'w').write(cfg)
